@@ -17,6 +17,16 @@ func Encode(v uint32) []byte {
 	return append([]byte(nil), scratch[:]...)
 }
 
+// EncodeAlias is Encode with the shared buffer reached through a local name.
+func EncodeAlias(v uint32) []byte {
+	b := scratch[:]
+	b[0] = byte(v >> 24)
+	b[1] = byte(v >> 16)
+	b[2] = byte(v >> 8)
+	b[3] = byte(v)
+	return append([]byte(nil), b...)
+}
+
 // EncodeLocal is the correct variant.
 func EncodeLocal(v uint32) []byte {
 	var b [4]byte
